@@ -88,23 +88,32 @@ Lemma apply_change_facts vals k u :
   (nodup vals -> nodup r) /\ (keys_ok vals -> k = pv_path u -> keys_ok r) /\
   (forall p v, map_get p r = Some v -> (p = k /\ v = u) \/ (p <> k /\ map_get p vals = Some v)) /\
   (forall p, map_get p r = None -> p <> k /\ (map_get p vals = None \/ In p (boundary_ancestors k))) /\
-  (forall a, In a (boundary_ancestors k) -> not_tomb r a) /\
+  (pv_deleted u = false -> forall a, In a (boundary_ancestors k) -> not_tomb r a) /\
   (forall b, b <> k -> not_tomb vals b -> not_tomb r b).
 Proof.
-  unfold apply_change_to_config.
-  destruct (drop_fold_facts (boundary_ancestors k) (map_set k u vals, None)) as [R1 [R2 [R3 [R4 [R5 R6]]]]].
-  cbn [fst] in *. repeat split.
-  - intros H. apply R1, nodup_map_set, H.
-  - intros H E. apply R2, keys_ok_map_set; assumption.
-  - intros p v H. apply R3 in H. rewrite map_get_set in H.
-    deq p k; [left; injection H as <-; auto | right; auto].
-  - apply R4 in H. destruct H as [H|H].
+  unfold apply_change_to_config. destruct (pv_deleted u) eqn:Du.
+  - (* a deleted value (13d170a): the value is set, no ancestor is touched *)
+    cbn [fst]. repeat split.
+    + intros H. apply nodup_map_set, H.
+    + intros H E. apply keys_ok_map_set; assumption.
+    + intros p v H. rewrite map_get_set in H. deq p k; [left; injection H as <-; auto | right; auto].
     + rewrite map_get_set in H. deq p k; [discriminate | exact E].
-    + apply ancestor_neq. exact H.
-  - apply R4 in H. destruct H as [H|H]; [|right; exact H].
-    rewrite map_get_set in H. destruct (eqb_str p k); [discriminate | left; exact H].
-  - exact R5.
-  - intros b Nb H. apply R6. unfold not_tomb. rewrite map_get_set. apply eqb_str_neq in Nb. rewrite Nb. exact H.
+    + rewrite map_get_set in H. destruct (eqb_str p k); [discriminate | left; exact H].
+    + discriminate.
+    + intros b Nb H. unfold not_tomb. rewrite map_get_set. apply eqb_str_neq in Nb. rewrite Nb. exact H.
+  - destruct (drop_fold_facts (boundary_ancestors k) (map_set k u vals, None)) as [R1 [R2 [R3 [R4 [R5 R6]]]]].
+    cbn [fst] in *. repeat split.
+    + intros H. apply R1, nodup_map_set, H.
+    + intros H E. apply R2, keys_ok_map_set; assumption.
+    + intros p v H. apply R3 in H. rewrite map_get_set in H.
+      deq p k; [left; injection H as <-; auto | right; auto].
+    + apply R4 in H. destruct H as [H|H].
+      * rewrite map_get_set in H. deq p k; [discriminate | exact E].
+      * apply ancestor_neq. exact H.
+    + apply R4 in H. destruct H as [H|H]; [|right; exact H].
+      rewrite map_get_set in H. destruct (eqb_str p k); [discriminate | left; exact H].
+    + intros _. exact R5.
+    + intros b Nb H. apply R6. unfold not_tomb. rewrite map_get_set. apply eqb_str_neq in Nb. rewrite Nb. exact H.
 Qed.
 
 (* ------------------------------------------------------------------ the whole updated map *)
@@ -139,7 +148,8 @@ Proof.
     + right. apply eqb_str_neq in Np. rewrite Np. split; assumption.
 Qed.
 
-(* a tombstone above a live value of the updated map that the updated map itself does not name is gone *)
+(* a tombstone above a LIVE value of the updated map that the updated map itself does not name is gone
+   (a deleted value leaves its ancestors alone, 13d170a) *)
 Lemma apply_all_not_tomb_other upd : forall vals t, ~ In t (map fst upd) -> not_tomb vals t -> not_tomb (apply_all vals upd) t.
 Proof.
   induction upd as [|[k u] upd IH]; intros vals t Hn H; [exact H|].
@@ -150,16 +160,16 @@ Proof.
 Qed.
 
 Lemma apply_all_clears upd : forall vals p v t, nodup upd ->
-  In (p, v) upd -> In t (boundary_ancestors p) -> ~ In t (map fst upd) ->
+  In (p, v) upd -> pv_deleted v = false -> In t (boundary_ancestors p) -> ~ In t (map fst upd) ->
   not_tomb (apply_all vals upd) t.
 Proof.
-  induction upd as [|[k u] upd IH]; intros vals p v t ND HI HA Hn; [destruct HI|].
+  induction upd as [|[k u] upd IH]; intros vals p v t ND HI Dv HA Hn; [destruct HI|].
   rewrite apply_all_cons. unfold nodup in ND. cbn in ND, Hn. inversion ND as [|? ? Hk ND']; subst.
   destruct (apply_change_facts vals k u) as [_ [_ [_ [_ [A5 _]]]]].
   destruct HI as [HI|HI].
   - injection HI as -> ->. apply apply_all_not_tomb_other; [intros H; apply Hn; right; exact H|].
-    apply A5. exact HA.
-  - apply (IH _ p v t ND' HI HA). intros H. apply Hn. right. exact H.
+    apply A5; [exact Dv | exact HA].
+  - apply (IH _ p v t ND' HI Dv HA). intros H. apply Hn. right. exact H.
 Qed.
 
 (* a key that disappears was dropped as the ancestor of a key of the updated map *)
@@ -277,6 +287,7 @@ Section Commit.
           assert (NT : not_tomb V' t).
           { rewrite V'_unfold. apply (apply_all_clears (fst acc) (snd acc) p pv t (ai_nodup _ _ _ _ INV)).
             - apply map_get_some_in. exact Hpu.
+            - exact Dp.
             - exact HA.
             - intros HK. apply map_get_in_keys in HK. congruence. }
           unfold not_tomb in NT. rewrite Ht in NT. congruence.
